@@ -335,20 +335,26 @@ def ends_for(mode, sit):
 # ------------------------------------------------------------------------------------------------
 # (A) reopen in every permutation
 # ------------------------------------------------------------------------------------------------
-def run_reopen_case(R: Recorder, cls_key: str, hidx: int, commit_last: bool, case, stats, perms_limit=None):
+# a long chain: 12 containers, so that patch indices cross from one to two digits (file names foo.p9.ih5 -> foo.p10.ih5)
+LONG_HISTORY = [[["set", "a/x", 0], ["setattr", "/", "k", 0]]] + [[["set", f"a/n{i}", i], ["setattr", "/", "k", i]] + ([["del", f"a/n{i-1}"]] if i % 3 == 0 else []) for i in range(1, 12)]
+
+
+def run_reopen_case(R: Recorder, cls_key: str, hidx: int, commit_last: bool, case, stats, perms_limit=None, segments=None):
     cls = CLASSES[cls_key]
-    sig = f"c03:{cls_key}:reopen:{'committed' if commit_last else 'uncommitted-newest'}"
+    sig = f"c03:{cls_key}:reopen:{'committed' if commit_last else 'uncommitted-newest'}" + (":long-chain" if segments is not None else "")
     with tmpdir() as d:
-        rec, dumps = LC.build_segments(cls, d / "foo", HISTORIES[hidx], commit_last=commit_last)
+        rec, dumps = LC.build_segments(cls, d / "foo", segments if segments is not None else HISTORIES[hidx], commit_last=commit_last)
         view = dump_tree(rec)
         files = [Path(f.filename) for f in rec.__files__]
         rec.close(commit=False)
         before = dir_digests(d)
         dmp, _, err = LC.open_dump(cls, d / "foo", "r")
         R.check(err is None and dmp == view, f"{sig}:by-name", f"reopen by name: {'error ' + str(err) if err else 'tree differs from the one before close()'}", case, FNS)
-        perms = list(itertools.permutations(range(len(files))))
         if perms_limit:
-            perms = perms[:perms_limit]
+            n_f = len(files)
+            perms = [tuple(range(n_f)), tuple(reversed(range(n_f))), tuple(list(range(1, n_f, 2)) + list(range(0, n_f, 2)))][:perms_limit]
+        else:
+            perms = list(itertools.permutations(range(len(files))))
         for perm in perms:
             lst = [files[i] for i in perm]
             dmp, _, err = LC.open_dump(cls, lst, "r")
@@ -391,6 +397,10 @@ def run(tier: str, seed: int) -> dict:
     rnd = base.rng(seed, "c03")
     stats = {"opened": 0, "refused": 0, "skipped": 0, "perm_opens": 0, "w_leftover_sidecars": 0, "cells": 0, "templates": 0}
     budget = 50.0 if tier == "quick" else 520.0
+    # ---- (A0) long chain (any number of patches; index formatting boundary at 10)
+    for cls_key in ("ih5",) if tier == "quick" else ("ih5", "mf"):
+        case = {"kind": "reopen-long", "cls": cls_key, "commit_last": True}
+        run_reopen_case(R, cls_key, -1, True, case, stats, perms_limit=3, segments=LONG_HISTORY)
     # ---- (A)
     hist_a = [0, 1, 3, 5] if tier == "quick" else list(range(len(HISTORIES)))
     a_done = 0
@@ -458,7 +468,10 @@ def run(tier: str, seed: int) -> dict:
 def replay(case: dict):
     R = Recorder(PID, DRV)
     stats = {"opened": 0, "refused": 0, "skipped": 0, "perm_opens": 0, "w_leftover_sidecars": 0, "cells": 0, "templates": 0}
-    if case["kind"] == "reopen":
+    if case["kind"] == "reopen-long":
+        c = {k: v for k, v in case.items() if k != "perm"}
+        run_reopen_case(R, case["cls"], -1, case["commit_last"], c, stats, perms_limit=3, segments=LONG_HISTORY)
+    elif case["kind"] == "reopen":
         c = {k: v for k, v in case.items() if k != "perm"}
         run_reopen_case(R, case["cls"], case["hist"], case["commit_last"], c, stats)
     else:
